@@ -168,6 +168,11 @@ pub struct ColumnarCase {
     /// merge the merged file once more (stacked on top of table 0): inputs produced by merge_columnar itself
     #[serde(default)]
     pub remerge: bool,
+    /// merge once more (stacked) with a numeric column *required* to be an integer type: (column pick, i64 / u64).
+    /// Documented contract: the merge fails if an input cannot be coerced - otherwise the column has that type and
+    /// exactly the values of the inputs
+    #[serde(default)]
+    pub required: Option<(u8, bool)>,
     pub queries: Vec<RangeQ>,
 }
 
@@ -1114,8 +1119,8 @@ impl Sub for Columnar {
             4 => Just(MergeSpec::Stack),
             6 => (order, del, any::<bool>()).prop_map(|(order, del, alive_none_when_no_deletes)| MergeSpec::Shuffle { order, del, alive_none_when_no_deletes }),
         ];
-        (prop::collection::vec(table_strategy(tier), 1..6), merge, prop::bool::weighted(0.25), prop::collection::vec(query_strategy(), 2..8))
-            .prop_map(|(mut tables, merge, remerge, queries)| {
+        (prop::collection::vec(table_strategy(tier), 1..6), merge, prop::bool::weighted(0.25), prop::collection::vec(query_strategy(), 2..8), prop::option::weighted(0.35, (any::<u8>(), any::<bool>())))
+            .prop_map(|(mut tables, merge, remerge, queries, required)| {
                 // at most one big table per case, and then at most 3 tables (cost)
                 let mut seen_big = false;
                 for t in tables.iter_mut() {
@@ -1129,7 +1134,7 @@ impl Sub for Columnar {
                 if seen_big {
                     tables.truncate(3);
                 }
-                ColumnarCase { tables, merge, remerge, queries }
+                ColumnarCase { tables, merge, remerge, required, queries }
             })
             .boxed()
     }
@@ -1176,7 +1181,7 @@ impl Sub for Columnar {
             "range:sub_docrange",
             "write_perm",
             "mixed_numeric_column",
-            "merge:of_a_merged_file",
+            "merge:of_a_merged_file", "merge:required_type_accepted", "merge:required_type_refused_for_values_that_do_not_fit", "merge:required_i64_refused_for_u64_values_on_both_sides_of_i64_max",
             "dict:terms>1000",
         ];
         if tier == Tier::Thorough {
@@ -1280,6 +1285,50 @@ impl Sub for Columnar {
                 check_reader(&re, &expected, &c.queries, cx, "remerge")?;
                 cx.label("merge:of_a_merged_file");
                 cx.evals(expected.cols.len() as u64);
+            }
+        }
+        if let Some((pick, as_i64)) = c.required {
+            let total_rows: u64 = models.iter().map(|m| m.rows as u64).sum();
+            let mut num_keys: Vec<(String, Cat)> = models.iter().flat_map(|m| m.cols.iter().filter(|(k, c)| k.1 == Cat::Num && c.num_vals() > 0).map(|(k, _)| k.clone())).collect();
+            num_keys.sort();
+            num_keys.dedup();
+            if !num_keys.is_empty() && total_rows < 300_000 {
+                let key = num_keys[pick as usize % num_keys.len()].clone();
+                let ty = if as_i64 { ColumnType::I64 } else { ColumnType::U64 };
+                let order: Vec<(u32, u32)> = models.iter().enumerate().flat_map(|(t, m)| (0..m.rows).map(move |r| (t as u32, r))).collect();
+                let expected = merged_model(&models, &order);
+                let cm = &expected.cols[&key];
+                let fits = cm.vals.iter().all(|v| match v {
+                    Val::I(x) => as_i64 || *x >= 0,
+                    Val::U(x) => !as_i64 || *x <= i64::MAX as u64,
+                    _ => false,
+                });
+                let mixed_u64 = cm.vals.iter().any(|v| matches!(v, Val::U(x) if *x > i64::MAX as u64)) && cm.vals.iter().any(|v| matches!(v, Val::U(x) if *x <= i64::MAX as u64));
+                let mut out = Vec::new();
+                match merge_columnar(&refs, &[(key.0.clone(), ty)], MergeRowOrder::Stack(StackMergeOrder::stack(&refs)), &mut out) {
+                    Err(_) => {
+                        cx.label("merge:required_type_refused");
+                        cx.label_if(!fits, "merge:required_type_refused_for_values_that_do_not_fit");
+                        cx.label_if(as_i64 && mixed_u64 && cm.vals.iter().all(|v| matches!(v, Val::U(_))), "merge:required_i64_refused_for_u64_values_on_both_sides_of_i64_max");
+                    }
+                    Ok(()) => {
+                        cx.label("merge:required_type_accepted");
+                        cx.label_if(as_i64 && mixed_u64, "merge:required_i64_over_u64_values_on_both_sides_of_i64_max");
+                        let merged = ColumnarReader::open(out).or_fail("merge_required:open_error")?;
+                        let cols: Vec<DynamicColumn> = merged.read_columns(&key.0).or_fail("merge_required:read_columns")?.iter().map(|h| h.open()).collect::<Result<_, _>>().or_fail("merge_required:open_column")?;
+                        let nums: Vec<&DynamicColumn> = cols.iter().filter(|c| cat_of_dynamic(c) == Cat::Num).collect();
+                        ensure!(nums.len() == 1, "merge_required:numeric_column_count", "column {:?} required as {ty:?}: {} numeric columns in the merged file", key.0, nums.len());
+                        let got_ty = match nums[0] {
+                            DynamicColumn::I64(_) => ColumnType::I64,
+                            DynamicColumn::U64(_) => ColumnType::U64,
+                            _ => ColumnType::F64,
+                        };
+                        ensure!(got_ty == ty, "merge_required:wrong_type", "column {:?} required as {ty:?}, merged file has {got_ty:?}", key.0);
+                        // the values are exactly the inputs' (a value the type cannot hold means the merge had to fail)
+                        check_dynamic_column(nums[0], cm, &c.queries, cx, "merge_required", &format!("column {:?} required as {ty:?}", key.0))?;
+                        cx.evals(1);
+                    }
+                }
             }
         }
         if merged_rows.is_some() {
